@@ -1,4 +1,5 @@
 import PegVerif.Proofs.BuildProofs
+import PegVerif.Proofs.BuildFmtProofs
 /-
   C18 – build-script compilation leaves the destination matching the current grammar.
   Model: Build.lean (`Compile::run` on a single file after fix F6, CRC-32/ISO-HDLC, header),
@@ -38,6 +39,42 @@ theorem C18_fresh_partial (k : Consts) (compile : List UInt8 → Option (List UI
 /-- the unconditional statement is **false** (known finding K1): two concrete grammar texts with
     the same CRC-32 (fd872ce9) – the second run reports success and keeps the stale destination -/
 theorem C18_fresh_is_false_without_crc_hypothesis : ¬ C18_fresh_statement := C18_fresh_false
+
+/-! ### with `.format()` (BuildFmt.lean, Proofs/BuildFmtProofs.lean)
+
+  rustfmt is an external program: a parameter `fmt` of the model (the correspondence run gives the model a table built
+  with the real rustfmt).  The only assumption: `KeepsHeaderLines k fmt` – formatting an output of the helper leaves its
+  header lines (the common header and the line with the CRC-32 of the prefix) as they are.  `stepF … false` *is* `step`
+  (`stepF_false`), so the theorems above are the no-formatting instance. -/
+
+theorem C18_format_failure_preserves (k : Consts) (compile : List UInt8 → Option (List UInt8))
+    (fmt : List UInt8 → List UInt8) (format : Bool) (fs : FS)
+    (h : (stepF k compile fmt format fs .run).2 = .err) : (stepF k compile fmt format fs .run).1 = fs :=
+  C18F_failure_preserves_any k compile fmt format fs h
+
+/-- a formatted destination produced by a successful run is left untouched by the next run – whatever rustfmt did to
+    the prefix text.  (False for the code before fix F8: `C18_format_untouched_was_false`.) -/
+theorem C18_format_untouched (k : Consts) (compile : List UInt8 → Option (List UInt8)) (fmt : List UInt8 → List UInt8)
+    (hk : KeepsHeaderLines k fmt) (fs fs' : FS) (w : Bool)
+    (h : stepF k compile fmt true fs .run = (fs', .ok w)) :
+    stepF k compile fmt true fs' .run = (fs', .ok false) :=
+  C18F_untouched k compile fmt hk fs fs' w h
+
+/-- freshness over histories with formatting (partial in the same sense as `C18_fresh_partial`; with formatting *any* two
+    prefixes with equal CRC-32 are indistinguishable, not only an initial-segment pair: `C18F_prefix_collision_witness`) -/
+theorem C18_format_fresh_partial (k : Consts) (compile : List UInt8 → Option (List UInt8)) (fmt : List UInt8 → List UInt8)
+    (hk : KeepsHeaderLines k fmt) (fs0 : FS) (ops : List Op) (fs' : FS) (w : Bool) (h0 : fs0.dest = none)
+    (hcG : CrcInjOn (· ∈ grammarTexts fs0 ops)) (hcP : CrcInjOn (· ∈ prefixTexts fs0 ops))
+    (h : stepF k compile fmt true (runOpsF k compile fmt true fs0 ops) .run = (fs', .ok w)) :
+    ∃ g code, fs'.grammar = some g ∧ compile g = some code ∧ fs'.dest = some (fmt (output k g fs'.pfx code)) :=
+  C18F_fresh_partial_history k compile fmt hk fs0 ops fs' w h0 hcG hcP h
+
+/-- the behaviour before fix F8 (compare header lines *and prefix text* also when formatting): with a formatter that
+    keeps the header lines but collapses the double blank in the prefix `use  a;`, two consecutive runs both rewrite -/
+theorem C18_format_untouched_was_false : ¬ C18F_old_untouched_statement := C18F_old_untouched_false
+
+/-- non-vacuity of the assumption: a formatter that is not the identity and keeps the header lines -/
+example : KeepsHeaderLines Witness.k0 FmtWitness.fmtSq := FmtWitness.keeps_fmtSq
 
 /-! ## non-vacuity (BEGIN) -/
 namespace C18_nv
